@@ -163,13 +163,14 @@ InitState == \E c \in [mwb : Mwbs, cc : Ccs, conn : Conns] : InitWith(c)
 Connecting == co = Pending
 
 (***************************************************************************)
-(* Closing with error class e ("none" if no error).  newrd / newpos: the    *)
+(* Closing with error class e ("none" if no error).  k: descriptor of the  *)
+(* read that is pending or being started (<<>> if none), newrd / newpos: its *)
 (* outcome of the read that was pending (or is being started) and the new  *)
 (* consumed count; outs: the write outcomes before failing the pending ones.*)
 (* Every pending write and the pending connect fail with                    *)
 (* StreamClosedError(real_error = e); the close callback runs once, after.  *)
 (***************************************************************************)
-CloseWith(e, newrd, newpos, outs) ==
+CloseWith(e, newrd, newpos, outs, k) ==
     /\ st' = "closed"
     /\ serr' = e
     /\ rd' = newrd
@@ -183,7 +184,11 @@ CloseWith(e, newrd, newpos, outs) ==
     /\ ccb' = ccb + cfg.cc
     /\ cbl' = IF cfg.cc = 1 THEN "yes" ELSE "na"
     /\ tc' = "none"
-    /\ \E b \in Min2(held, Len(stream) - newpos)..(Len(stream) - newpos) : buf' = b
+    \* what later reads can be served from: at least what the contract guarantees to be buffered -
+    \* except that bytes already placed in the caller's buffer of a failed read_into may be gone
+    /\ LET rest == Len(stream) - newpos
+           lo == IF k # <<>> /\ k[1] = "into" /\ newrd[1] = "exc" THEN 0 ELSE Min2(held, rest)
+       IN \E b \in lo..rest : buf' = b
     /\ held' = 0
     /\ UNCHANGED <<cfg, sent, wall, credit, rdead>>
 
@@ -195,7 +200,7 @@ PendingAtClose(e) ==
     ELSE IF rk[1] = "close" THEN [o |-> Ok(U), p |-> Len(stream)]
     ELSE [o |-> Closed(e), p |-> pos]
 
-CloseNow(e) == LET x == PendingAtClose(e) IN CloseWith(e, x.o, x.p, wr)
+CloseNow(e) == LET x == PendingAtClose(e) IN CloseWith(e, x.o, x.p, wr, rk)
 
 NoClose == UNCHANGED ClVars /\ cbl' = "na"
 
@@ -215,12 +220,14 @@ ReadOpen(k) ==
                 /\ NoClose
                 /\ UNCHANGED <<cfg, stream, rk, rdead, wc, WrVars>>
        ELSE IF Unsat(k, U)
-         THEN /\ CloseWith("UnsatisfiableReadError", Closed("UnsatisfiableReadError"), pos, wr)
+         THEN /\ CloseWith("UnsatisfiableReadError", Closed("UnsatisfiableReadError"), pos, wr, k)
               /\ UNCHANGED wc
        ELSE IF tc # "none"                      \* the read needs the transport and finds the condition
          THEN /\ UNCHANGED wc
-              /\ IF k[1] = "close" THEN CloseWith(RealOf(tc), Ok(U), Len(stream), wr)
-                 ELSE \E x \in InlineFail(tc) : CloseWith(RealOf(tc), x, pos, wr)
+              /\ IF k[1] = "close"
+                   THEN \E x \in {Ok(U)} \cup (IF tc = "error" THEN {Exc("OSError", "none")} ELSE {}) :
+                            CloseWith(RealOf(tc), x, Len(stream), wr, k)
+                 ELSE \E x \in InlineFail(tc) : CloseWith(RealOf(tc), x, pos, wr, k)
        ELSE /\ rk' = k
             /\ rd' = Pending
             /\ held' = Len(U)
@@ -342,6 +349,7 @@ Flush(q, c, th, outs) ==
 Write(n) ==
     /\ "write" \in Ops
     /\ Len(wr) < MaxWrites
+    /\ tc = "none"          \* (when an unnoticed read-side condition is noticed is not specified: no write-side steps then)
     /\ LET data == Payload(Len(wr) + 1, n) IN
        /\ IF st = "closed"
             THEN /\ wr' = Append(wr, Closed(serr))
@@ -360,7 +368,7 @@ Write(n) ==
                  /\ UNCHANGED <<cfg, RdVars, ClVars, rdead, wc, sent, credit>>
           ELSE IF wc # "none" /\ wq \o data # <<>>                      \* the transport refuses: the stream closes
             THEN /\ LET x == PendingAtClose(RealOf(wc)) IN
-                      CloseWith(RealOf(wc), x.o, x.p, Append(wr, Pending))
+                      CloseWith(RealOf(wc), x.o, x.p, Append(wr, Pending), rk)
                  /\ UNCHANGED wc
           ELSE /\ Flush(wq \o data, credit, Append(wth, Len(sent) + Len(wq) + n), Append(wr, Pending))
                /\ wall' = wall \o data
@@ -371,7 +379,7 @@ Write(n) ==
 (* The transport becomes willing to accept g more bytes. *)
 Grant(g) ==
     /\ "grant" \in Ops
-    /\ st = "open" /\ wc = "none"
+    /\ st = "open" /\ wc = "none" /\ tc = "none"
     /\ credit + g <= 12
     /\ IF Connecting
          THEN credit' = credit + g /\ UNCHANGED <<sent, wq, wth, wr>>
@@ -384,7 +392,7 @@ Grant(g) ==
 (* queued the failure is noticed at once; otherwise by the next non-empty write.             *)
 WCond(name, c) ==
     /\ name \in Ops
-    /\ st = "open" /\ wc = "none" /\ ~Connecting
+    /\ st = "open" /\ wc = "none" /\ ~Connecting /\ tc = "none"
     /\ wc' = c
     /\ IF wq # <<>>
          THEN CloseNow(RealOf(c))
